@@ -216,13 +216,27 @@ LegacyCraft(k) ==
      \o (IF 3 \in more THEN <<EvTitle(Id(1), "Named later", 5)>> ELSE <<>>)
      \o (IF 4 \in more THEN <<EvBody(Id(1), RandomElement(bodies), 6)>> ELSE <<>>)
 
+\* hand-merged logs: the events of a pruned item P (create, updates, the links that
+\* mention it, its tombstone) in EVERY order, among the events of two live tasks;
+\* whatever the order, P is gone and so are its edges (the tombstone wins)
+MergedP == <<EvNew("task", Id(3), "", "todo", "P", "", 3), EvState(Id(3), "done", 4), EvTitle(Id(3), "P renamed", 5),
+             EvLink("link", Id(1), Id(3), 0), EvLink("link", Id(3), Id(2), 0), EvTomb(Id(3), 6)>>
+MergedCraft(k) ==
+  LET perm == RandomElement(Permutations(1..Len(MergedP)))
+      tail == RandomElement({<<>>, <<EvLink("link", Id(2), Id(1), 0)>>, <<EvState(Id(1), "done", 7)>>,
+                             <<EvLink("link", Id(2), Id(3), 0)>>, <<EvBody(Id(3), "late", 8)>>})
+  IN <<EvNew("task", Id(1), "", "todo", "X", "", 1), EvNew("task", Id(2), "", "todo", "Y", "", 2)>>
+     \o [i \in 1..Len(MergedP) |-> MergedP[perm[i]]] \o tail
+
 Init == /\ IF CraftMode = "empty" THEN base = <<>>
            ELSE IF CraftMode = "legacy" THEN \E k \in 1..CraftN : base = LegacyCraft(k)
+           ELSE IF CraftMode = "merged" THEN \E k \in 1..CraftN : base = MergedCraft(k)
            ELSE \E k \in 1..CraftN : base = RandomCraft(k)
         /\ log = base
         /\ now = IF base = <<>> THEN 0 ELSE Len(base) + 2
-        /\ nid = IF base = <<>> THEN 0 ELSE IF CraftMode = "legacy" THEN 2 ELSE CraftTasks + CraftEpics
-        /\ gone = {}
+        /\ nid = IF base = <<>> THEN 0 ELSE IF CraftMode = "legacy" THEN 2
+                 ELSE IF CraftMode = "merged" THEN 3 ELSE CraftTasks + CraftEpics
+        /\ gone = Replay(base).tomb
         /\ last = [cmd |-> NoCmd, exit |-> 0, reply |-> Reply0, logpre |-> <<>>, gonepre |-> {}]
         /\ hist = <<>>
 
